@@ -116,6 +116,7 @@ const (
 	UrlRaw     = "url-raw"
 	UrlEnc     = "url-enc"
 	UrlEncFull = "url-encfull"
+	UrlEncName = "url-encname" // the parameter's NAME needs percent-encoding as well: 名字[k]=v travels as %E5%90%8D%E5%AD%97%5Bk%5D=v
 	UrlPtr     = "url-ptr" // *string input
 	// StructCtx: the ruled field F in the middle of a struct with neighbours of other kinds —
 	// struct{ T0 time.Time; B string; F T; T1 *time.Time; C uint8; T2 time.Time; G T } (G carries the
@@ -215,13 +216,17 @@ func Carry(carrier string, v reflect.Value, rule string) (out Out, ok bool) {
 		sl := reflect.MakeSlice(reflect.SliceOf(mt), 0, 1)
 		sl = reflect.Append(sl, m)
 		return Call(func() error { return valid.Map(sl.Interface(), valid.RM{"k": rule}) }), true
-	case UrlRaw, UrlEnc, UrlEncFull, UrlPtr:
+	case UrlRaw, UrlEnc, UrlEncFull, UrlPtr, UrlEncName:
 		if v.Kind() != reflect.String {
 			return Out{}, false
 		}
 		s := v.String()
 		var u string
 		switch carrier {
+		case UrlEncName:
+			name := UrlEncNameKey
+			u = "http://h.example/p?x=1&" + url.QueryEscape(name) + "=" + url.QueryEscape(s) + "&tags%5B%5D=t"
+			return Call(func() error { return valid.Url(u, valid.RM{name: rule}) }), true
 		case UrlPtr:
 			u = "http://h.example/p?k=" + url.QueryEscape(s)
 			up := &u
@@ -249,6 +254,9 @@ func Carry(carrier string, v reflect.Value, rule string) (out Out, ok bool) {
 	}
 	return Out{}, false
 }
+
+// UrlEncNameKey is the parameter name of the UrlEncName carrier (and the path of its clauses).
+const UrlEncNameKey = "名字[k]"
 
 // UrlUnreserved: s consists of RFC 3986 unreserved characters only (so the raw form is its own encoding).
 func UrlUnreserved(s string) bool {
